@@ -64,6 +64,8 @@ def interpolate_fwd_contract(cfg: ivp.Cfg):
         cl += _frame_fields("interp_from_keeps_left_state", ir.interp_from, interp_from)
         cl += _same("interpolated.output_scale", interpolated.output_scale, interp_to.output_scale)
         cl += _same("interpolated.prior", interpolated.prior, interp_to.prior)
+        cl += _same("interpolated.auxiliary", interpolated.auxiliary, interp_to.auxiliary)
+        cl += _same("interpolated.fun_evals", interpolated.fun_evals, interp_to.fun_evals)
         # the marginal carried on is the one of the right-hand state (time stepping does not see checkpoints)
         fm_new, fm_old = ivp.filtering_marginal(ir.step_from), ivp.filtering_marginal(interp_to)
         cl += [eq("step_from_marginal_mean_unchanged", fm_new.mean_flat, fm_old.mean_flat), eq("step_from_marginal_chol_unchanged", fm_new.cholesky_flat, fm_old.cholesky_flat)]
@@ -129,6 +131,11 @@ def interpolate_at_t1_contract(cfg: ivp.Cfg):
         cl += _frame_fields("step_from_keeps_right_state", ir.step_from, interp_to)
         cl += _frame_fields("interp_from_keeps_left_bookkeeping", ir.interp_from, interp_from)
         cl += _same("reported_state_is_the_step_end", sol.u, ivp.filtering_marginal(interp_to))
+        # everything reported next to the marginal (output scale, cached linearisation, auxiliary state, prior) belongs to the step end
+        cl += _same("reported_output_scale_is_the_step_end's", sol.output_scale, interp_to.output_scale)
+        cl += _same("reported_auxiliary_is_the_step_end's", sol.auxiliary, interp_to.auxiliary)
+        cl += _same("reported_fun_evals_is_the_step_end's", sol.fun_evals, interp_to.fun_evals)
+        cl += _same("reported_prior_is_the_step_end's", sol.prior, interp_to.prior)
         fm_new, fm_old = ivp.filtering_marginal(ir.step_from), ivp.filtering_marginal(interp_to)
         cl += [eq("step_from_marginal_mean_unchanged", fm_new.mean_flat, fm_old.mean_flat), eq("step_from_marginal_chol_unchanged", fm_new.cholesky_flat, fm_old.cholesky_flat)]
         if cfg.strategy == "fixedpoint":
